@@ -99,7 +99,6 @@ class ndarray(metaclass=_NdMeta):
 
 
 class NP(_Stub):
-    pi = None  # set below (needs ctx) -> property
 
     def __init__(self):
         super().__init__("numpy")
@@ -226,13 +225,11 @@ class NP(_Stub):
 
     def rad2deg(self, x):
         _use("numpy.rad2deg")
-        pi = sym.pi_axiom()
-        return self._ew1(x, lambda a: sdiv(a * 180, pi))
+        return self._ew1(x, rad2deg)
 
     def deg2rad(self, x):
         _use("numpy.deg2rad")
-        pi = sym.pi_axiom()
-        return self._ew1(x, lambda a: sdiv(a * pi, 180))
+        return self._ew1(x, deg2rad)
 
     def power(self, x, e):
         _use("numpy.power")
@@ -548,6 +545,49 @@ class NP(_Stub):
 
     def unique(self, x):
         raise OutOfReach("np.unique")
+
+
+def deg2rad(a):
+    """trusted: numpy.deg2rad(x) = x * pi / 180.  Kept as an uninterpreted function (its numeric meaning makes every
+    comparison that involves it nonlinear); `unit_conversion_meaning()` asserts the meaning where a proof needs it."""
+    if not sym.has_ctx():
+        import math
+        return math.radians(float(a))
+    if not is_sym(a):
+        if sym.cnum(a) == 0:
+            return 0
+        a = to_real(sym.cnum(a)) if is_sym(to_real(sym.cnum(a))) else SR(sym.realval(sym.cnum(a)))
+    t = _term(to_real(a))
+    y = uf("deg2rad", R, R)(t)
+    cur().axiom(z3.And((y >= 0) == (t >= 0), (y == 0) == (t == 0)), "deg2rad.sign")
+    cur().ghost.setdefault("unit_terms", []).append(("deg2rad", t, y))
+    return wrap(y)
+
+
+def rad2deg(a):
+    if not sym.has_ctx():
+        import math
+        return math.degrees(float(a))
+    if not is_sym(a):
+        if sym.cnum(a) == 0:
+            return 0
+        a = SR(sym.realval(sym.cnum(a)))
+    t = _term(to_real(a))
+    y = uf("rad2deg", R, R)(t)
+    cur().axiom(z3.And((y >= 0) == (t >= 0), (y == 0) == (t == 0)), "rad2deg.sign")
+    cur().ghost.setdefault("unit_terms", []).append(("rad2deg", t, y))
+    return wrap(y)
+
+
+def unit_conversion_meaning():
+    """on request: deg2rad(x) = x*pi/180 and rad2deg(x) = x*180/pi for the conversion terms met so far"""
+    c = cur()
+    pi = sym.pi_axiom()
+    for kind, t, y in c.ghost.get("unit_terms", []):
+        if kind == "deg2rad":
+            c.axiom(y * 180 == t * pi.t, "deg2rad.def")
+        else:
+            c.axiom(y * pi.t == t * 180, "rad2deg.def")
 
 
 def _forall_arr(x):
